@@ -24,6 +24,7 @@ THEOREMS = ["Names.resolve_direct_import", "Names.resolve_module_alias", "Names.
             # re-exports (layers PdProps/C04ReexpA..G): soundness with MOVED objects, order independence, clean run
             "Imports.resolve_sound_reexport", "Imports.resolve_order_independent_reexport", "Imports.wfr_run_clean",
             "Imports.resolve_sound_reexport_of", "Imports.resolve_sound_reexport_partial_order_counterexample",
+            "Imports.pkgFromOk_needed_counterexample",
             "Imports.reexport_sound_bounded", "Imports.ResolveSoundReexport.order_independent",
             # lemmas of PdProps/C04.lean they rest on (the layers below are PdProps/C04Base.lean and C04Clean.lean)
             "Imports.alias_of_stmt", "Imports.def_registered", "Imports.walk_path"]
@@ -485,6 +486,7 @@ def run(ctx: Ctx) -> None:
     compare_lines(ctx, "pyimp-run-reversed", p_reqs, p_impl, p_pay)
     run_reexports(ctx)
     run_reexport_sound(ctx)
+    replay_hidden_cycle_witness(ctx)
     replay_witnesses(ctx)
 
 
@@ -806,6 +808,25 @@ def run_reexport_sound(ctx: Ctx) -> None:
                 ctx.disagree("reexport-sound-search", p, "no violation of `a = finalLoc b` on a WFr project", out)
             else:
                 ctx.count(key + "violations-outside-wfr")
+
+
+def replay_hidden_cycle_witness(ctx: Ctx) -> None:
+    """the witness of Imports.pkgFromOk_needed_counterexample on the real pydoctor: `from p import qq` makes
+    getProcessedModule('p.qq') find - through find_object's bare-name fall-back - and PROCESS the unrelated root module `qq`;
+    where `K` is documented then depends on the processing order (open finding order-dependent:find-object-bare-name)"""
+    units = [Unit("p", True, "", None),
+             Unit("dd", False, "try:\n    from p import qq as z\nexcept ImportError:\n    z = None\nclass K:\n    '''ID:K'''\n", None),
+             Unit("qq", False, "from dd import K\n__all__ = ['K']\n", None)]
+    where = []
+    for order in ([1, 2, 0], [2, 1, 0]):
+        system, _, _ = build_real(units, order)
+        where.append(sorted(o.fullName() for o in system.allobjects.values() if o.docstring == "ID:K"))
+    ctx.traces_validated += 1
+    if where[0] != where[1]:
+        ctx.fail("order-dependent:find-object-bare-name", {"units": {u.qname: u.source for u in units}, "orders": [[1, 2, 0], [2, 1, 0]]},
+                 "the class K of dd.py is documented as %s when dd is processed first and as %s when qq is" % (where[0], where[1]))
+    else:
+        ctx.count("witness:hidden-cycle:order-independent-now")
 
 
 def replay_witnesses(ctx: Ctx) -> None:
